@@ -724,12 +724,16 @@ impl Fiber {
         if exception_handler.call_frame_depth() > bottom_frame {
           exception_handler
         } else {
+          self.stop_unwind();
           return UnwindResult::UnwindStopped;
         }
       },
       None => {
         return match bottom_frame {
-          Some(_) => UnwindResult::UnwindStopped,
+          Some(_) => {
+            self.stop_unwind();
+            UnwindResult::UnwindStopped
+          },
           None => UnwindResult::Unhandled,
         }
       },
@@ -757,6 +761,14 @@ impl Fiber {
 
     UnwindResult::PotentiallyHandled(frame)
   }}
+
+  /// The search for a handler ends at a native boundary. Native code
+  /// goes on running, no handler of this fiber is being evaluated anymore
+  fn stop_unwind(&mut self) {
+    if let FiberState::Unwinding = self.state {
+      self.state = FiberState::Running;
+    }
+  }
 
   /// Signals to the fiber to finish unwinding. The fiber is
   /// moved back into the activated state. The unwound back trace
